@@ -130,6 +130,18 @@ def generate(seed, tier):
                                     names=names)
     if S['swarm'].random() < 0.3:
         add_late_exclusions(ops, S['swarm'])
+    ctry = [o for o in ops if o['op'] in ('Country', 'Region')]
+    hhs = [o for o in ops if o['op'] in ('Household', 'HouseholdWithExpectations')]
+    if len(ctry) == 1 and not any(o['op'] == 'ExternalSector' for o in ops) and hhs and S['swarm'].random() < 0.25:
+        # codes are case sensitive: a second sector whose code differs from the household's by case only, and an
+        # initial condition addressed to it by its code (a string look-up at main() time)
+        hh = hhs[0]
+        twin = hh['code'].lower() if hh['code'].lower() != hh['code'] else hh['code'].upper()
+        at = [i for i, o in enumerate(ops) if o is hh][0] + 1
+        late = [i for i, o in enumerate(ops) if o['op'] in ('main', 'SetAttr')][0]
+        ops.insert(at, {'op': 'Sector', 'id': 'twin0', 'country': hh['country'], 'code': twin, 'has_F': True})
+        ops.insert(late + 1, {'op': 'AddInitialCondition', 'by': 'code', 'model': info['model'], 'fullcode': twin,
+                              'var': 'F', 'value': float(S['swarm'].randint(5, 60))})
     for i, op in enumerate(ops):
         op['u'] = i
     order = linear_extension(ops, S['schedule'])
